@@ -182,18 +182,17 @@ Definition process_difop (bl : build) (v : drv) (th : throttles) (now : Z) (b : 
     let '(t, e) := limit_call th now ERR_WRONGDIFOPID in (v, t, e)
   else (with_dec v (decode_difop d (b_difop_parse bl) (v_dec v) b), th, []).
 
+(* the two dispatch bytes; a packet shorter than two bytes is neither MSOP nor DIFOP *)
+Definition dispatch_bytes (b : bytes) : Z * Z := match b with x :: y :: _ => (x, y) | _ => (-1, -1) end.
 Definition ev_is_msop_b (b stale : bytes) : bool :=
-  let b0 := match b with x :: _ => x | [] => u8 stale 0 end in
-  let b1 := match b with _ :: y :: _ => y | _ => u8 stale 1 end in
-  (b0 =? 85) && (b1 =? 170).
+  (fst (dispatch_bytes b) =? 85) && (snd (dispatch_bytes b) =? 170).
 
-(* internalProcessPacket: dispatch on the first two bytes of the buffer.  `stale` = the two leading
-   bytes the pooled buffer held before this packet was copied in (they decide the dispatch of 0-
-   and 1-byte packets, see finding D21) *)
+(* internalProcessPacket: dispatch on the first two bytes of the packet (`stale`, the previous contents
+   of the pooled buffer, is kept as a parameter of the interface but no longer influences anything) *)
 Definition process_packet (bl : build) (crc_table : list Z) (v : drv) (th : throttles) (now host : Z) (b : bytes) (stale : bytes)
   : drv * throttles * list out :=
-  let b0 := match b with x :: _ => x | [] => u8 stale 0 end in
-  let b1 := match b with _ :: y :: _ => y | _ => u8 stale 1 end in
+  let b0 := fst (dispatch_bytes b) in
+  let b1 := snd (dispatch_bytes b) in
   if (b0 =? 85) && (b1 =? 170) then
     let '(v1, th1, o1, ret, b') := process_msop bl crc_table v th now host b in
     let '(v2, o2) := run_pkt_cb v1 b' (s_prev_pkt_ts (v_dec v1)) false ret in
